@@ -938,3 +938,23 @@ func ListAddrs(as []common.Address) string {
 }
 
 var _ = program.ProgramFromPubKey
+
+// hx keeps at most 200 failure records per run; frequent failures of one class (the recorded findings) would use them
+// up and hide a different class that shows up later in a long run. Every class is therefore reported at most
+// `maxPerClass` times per process; later occurrences are only counted in the kinds histogram. (A replayed line is
+// always reported: the counter starts at zero.)
+const maxPerClass = 10
+
+var reported = map[string]int{}
+
+// Limit clears Fail/Class of a result whose class was already reported maxPerClass times.
+func Limit(res *hx.Result) {
+	if res.Fail == "" {
+		return
+	}
+	reported[res.Class]++
+	if reported[res.Class] > maxPerClass {
+		res.Kind += " [" + res.Class + ": repeat, not re-reported]"
+		res.Fail, res.Class = "", ""
+	}
+}
